@@ -79,7 +79,7 @@ fn body(len: usize, with_reducer_ctor: bool) {
         log(Ev::Note { what: "call", a: i as i64, b: c as i64 });
         // component ids are unique per call position so that order and identity are visible;
         // they stay below 8 (scripted reducers index a bit mask) and differ from GATED
-        let r1 = 1 + i as u32; // 1..=4 (len <= 4)
+        let r1 = if i < 4 { 1 + i as u32 } else { 6 }; // 1..=4, 6 (len <= 5; 5 and 7 are taken)
         let m1 = 10 + 2 * i as u32;
         b = match c {
             0 => { m.name = "a".into(); b.with_name("a".into()) }
@@ -215,13 +215,14 @@ pub fn check(r: &ExecResult) -> Vec<Finding> {
 
 pub fn scenarios(tier: Tier) -> Vec<Scenario> {
     let mut v = vec![];
-    let maxlen = if tier == Tier::Quick { 3 } else { 4 };
+    let maxlen = if tier == Tier::Quick { 3 } else { 5 };
     for len in 0..=maxlen {
         for ctor in [false, true] {
             v.push(Scenario {
                 name: format!("C17/{}len{}", if ctor { "new_with_reducer/" } else { "new/" }, len),
                 params: format!("all {}^{} builder call sequences over {:?}", CALLS.len(), len, CALLS),
-                opts: opts_elide(),
+                // the probe registers a reducer at run time: only the middleware list is task-local
+                opts: verif_rt::RunOpts { elide: vec![ELIDE_MW], ..Default::default() },
                 bound: 0,
                 body: Arc::new(move || body(len, ctor)),
                 check: Arc::new(check),
